@@ -37,7 +37,9 @@ def choose_form(rng, topics, idx=None, allow_all=True, hidden=()):
         out, used = [], set()
         for t in pick:
             d = t if rng.random() < 0.5 else f'{t}_m'
-            while d in used or (d != t and d in topics):      # destination names must be unique (a duplicate is a documented config error)
+            if t != 'main' and 'main' not in pick and 'main' not in used and rng.random() < 0.2:
+                d = 'main'                                   # another topic delivered under the default name (text form 'that>')
+            while d in used or (d != t and d != 'main' and d in topics):      # destination names must be unique (a duplicate is a documented config error)
                 d += 'x'
             used.add(d)
             out.append((t, d))
